@@ -408,6 +408,24 @@ def classify(a, clause, detail):
 def main():
   rep = common.Report(PROP, "exploration")
   tier = common.tier()
+  # ---- deductive part: structural induction over the node classes (contracts/C40_tree.py) --------
+  from vlib.pysym import runner
+  common.setup_grist_path()
+  runner.run_property(rep, "contracts.C40_tree", bounded=False)
+  import contracts.C40_tree as tree_contracts
+  handled, rejected, probe = tree_contracts.dispatch_report()
+  rep.coverage["dispatch"] = {"visit_methods": handled, "reach_generic_visit": rejected,
+                              "probe_of_rejected_classes": probe}
+  for name, outcome in probe.items():
+    if outcome == "ACCEPTED":
+      rep.violation("C40.dispatch_total-%s" % name,
+                    {"obligation": "C40.dispatch_total", "class": name,
+                     "failing_input": "an ast.%s node is accepted without a visit_ method" % name})
+  rep.assumptions.append(
+    "deductive part: for BoolOp/BinOp/UnaryOp/Compare/Attribute/List/Tuple/Name/Expression the "
+    "real visit_ method returns exactly the documented table row, children being abstracted by "
+    "the induction hypothesis T(child); visit_Constant, visit_Call, the Comment wrapper and "
+    "tokenisation are covered by the bounded tier only")
   rep.assumptions += [
     "bounded: the expression families of the module docstring, enumerated completely, plus %d seeded "
     "random expressions of depth <= 4; not a proof" % N_RANDOM[tier],
